@@ -35,6 +35,7 @@ def zoo():
     Z['tric'] = (crystal.Crystal(np.array([[1, .1, .2], [0, 1.1, .15], [0, 0, .9]]), [np.zeros(3)]), 0, 1.15)
     Z['mono2'] = (crystal.Crystal(np.array([[1, 0, .2], [0, 1.1, 0], [0, 0, .9]]),
                                   [np.zeros(3), np.array([.5, .5, .5])]), 0, 0.95)
+    Z['tet1'] = (crystal.Crystal(np.diag([1., 1., 1.2]), [np.zeros(3)]), 0, 1.25)       # simple tetragonal, 2 jump classes
     # polar site symmetry (non-empty vector basis => origin states, non-zero bare-vacancy bias correction)
     Z['pol3'] = (crystal.Crystal(np.eye(3), [np.zeros(3), np.array([.45, .45, .45])]), 0, 0.96)
     Z['pol2'] = (crystal.Crystal(np.array([[1, .5], [0, _S3 / 2]]), [np.zeros(2), np.array([.3, .3])]), 0, 1.01)
@@ -43,6 +44,8 @@ def zoo():
 
 QUICK_NAMES = ['sq', 'tri', 'hon', 'sc', 'fcc', 'bcc', 'hcp', 'b2', 'dia', 'rect2', 'tric']
 ALL_NAMES = QUICK_NAMES + ['b2B', 'mono2', 'tet3', 'pol3', 'pol2']
+ALL_NAMES = ALL_NAMES + ['tet1']
+ANISOTROPIC_NAMES = ['hcp', 'rect2', 'tet1', 'pol2', 'tric']     # non-cubic with several omega0 classes
 ORIGIN_STATE_NAMES = ['rect2', 'pol2', 'pol3']     # len(OSindices) > 0
 
 _Z = None
@@ -104,6 +107,34 @@ def rand_thermo(d, nrng, kT=None, spread=1.0):
         td[k] = td[k] + spread * 0.1 * nrng.standard_normal(len(td[k]))
     if kT is None: kT = 0.3 + nrng.random()
     return tuple(OnsagerCalc.VacancyMediated.preene2betafree(kT, **td))
+
+
+def thermo_family(d, nrng, ndesignated=2, nvariants=3, kT=0.5):
+    """Structured vacancy parts for calculator d: for each of up to `ndesignated` omega0 classes c, `nvariants` inputs in
+    which class c is the fastest jump with the SAME rate and the other classes are slower by different factors
+    (same largest rate, different omega0 ratios).  Site data, solute data and the omega1/omega2 noise are shared by the
+    whole family, so members differ in the vacancy part (bFT0) only.  Returns a list of Lij argument tuples."""
+    from onsager import OnsagerCalc
+    N, Nst, Nom0 = len(d.sitelist), d.thermo.Nstars, len(d.om0_jn)
+    if Nom0 < 2: return []
+    base = {'preV': np.exp(0.2 * nrng.standard_normal(N)), 'eneV': 0.1 * nrng.standard_normal(N),
+            'preS': np.exp(0.2 * nrng.standard_normal(N)), 'eneS': 0.1 * nrng.standard_normal(N),
+            'preSV': np.exp(0.2 * nrng.standard_normal(Nst)), 'eneSV': 0.2 * nrng.standard_normal(Nst),
+            'preT0': np.ones(Nom0)}
+    noise = None
+    fam = []
+    for c in range(min(ndesignated, Nom0)):
+        gap = 0.05 + 0.25 * nrng.random(Nom0)
+        for v in range(nvariants):
+            eneT0 = 1.0 + gap + v * (0.3 + 0.4 * nrng.random(Nom0))
+            eneT0[c] = 1.0
+            td = dict(base, eneT0=eneT0)
+            td.update(d.makeLIMBpreene(**td))
+            if noise is None:
+                noise = {k: 0.1 * nrng.standard_normal(len(td[k])) for k in ('eneT1', 'eneT2')}
+            for k in ('eneT1', 'eneT2'): td[k] = td[k] + noise[k]
+            fam.append(tuple(OnsagerCalc.VacancyMediated.preene2betafree(kT, **td)))
+    return fam
 
 
 def bits(a):
